@@ -50,7 +50,8 @@ from concurrent.futures import ProcessPoolExecutor
 from vlib.core import CheckerError, Ctx, seed
 
 RTOL, ATOL = 1e-9, 1e-12
-SHRINKS_PER_SIGNATURE = 3  # per worker chunk
+SHRINKS_PER_SIGNATURE = 3  # per worker process
+_SHRUNK: dict = {}  # (symptom, features of the whole case) -> number of cases minimised by this process
 
 # ---------------------------------------------------------------------------
 # module-level float constants: the names `k` and `km` are deliberately also formal
@@ -635,7 +636,7 @@ def all_cases(sk, pool, n):
 def enumerate_cases(tier, rng):
     """quick: every assignment to 1 component, to 2 components for the main pools, the rest sampled;
     thorough: every assignment to <= 3 components, all 6561 assignments to 4 components for the main
-    pools on two skeletons, 1200 sampled per (skeleton, pool) otherwise."""
+    pools on two skeletons, 800 sampled per (skeleton, pool) otherwise."""
     out = []
     for sk in SKELETONS:
         for pool in POOLS:
@@ -645,7 +646,7 @@ def enumerate_cases(tier, rng):
                 if tier == "quick":
                     quota = {1: None, 2: None if main else 40, 3: 45 if main else 15, 4: 80 if main else 20}[n]
                 else:
-                    quota = {1: None, 2: None, 3: None, 4: None if (main and sk in FULL_SKELETONS) else 1200}[n]
+                    quota = {1: None, 2: None, 3: None, 4: None if (main and sk in FULL_SKELETONS) else 800}[n]
                 if quota is not None and quota < len(full):
                     full = rng.sample(full, quota)
                 out += full
@@ -664,7 +665,7 @@ def _work(chunk):
     counts = {"ok": 0, "rejected": 0, "skipped": 0, "fail": 0, "ok-although-untranslatable": 0}
     fails = {}  # key -> record (first per key)
     shrink_cache = {}
-    shrunk_per_sig = {}
+    shrunk_per_sig = _SHRUNK
     nontrivial = 0
     for case in chunk:
         r = check_case(case)
@@ -767,7 +768,7 @@ def run(ctx: Ctx) -> None:
                "1..4 slots x argument pattern per slot (n1,n2 / n2,n1 / n1,n1): "
                + ("all assignments to 1 component, to 2 components for the pools plain/formals/samename/keyclash, the rest sampled" if ctx.tier == "quick" else
                   "all assignments to <= 3 components, all 6561 assignments to 4 components for the pools plain/formals/samename/keyclash on skeletons SK1 and SK2, "
-                  "1200 sampled per (skeleton, pool) otherwise")
+                  "800 sampled per (skeleton, pool) otherwise")
                + f"; {counts.get('rejected', 0)} generations raised for untranslatable functions (allowed), {counts.get('skipped', 0)} skipped; "
                f"emitter post-condition evaluated {evals} times; + {n_unit} models with units"),
         cases=total, distinct_nontrivial=sum(r["nontrivial"] for r in results),
